@@ -733,6 +733,19 @@ fn operations(tier: Tier) -> Vec<Operation> {
             }
         }
     }
+    // the same path twice, and a wildcard followed by a concrete path it covers
+    for t in [Timed::No, Timed::Yes] {
+        for at in [W_VO, W_VA, T_VO, A_RV] {
+            ops.push(Operation::Write { paths: vec![Path::new(Some(1), Some(CL_A), Some(at)), Path::new(Some(1), Some(CL_A), Some(at))], timed: t });
+            ops.push(Operation::Write { paths: vec![Path::new(None, Some(CL_A), Some(at)), Path::new(Some(1), Some(CL_A), Some(at))], timed: t });
+            ops.push(Operation::Write { paths: vec![Path::new(Some(1), Some(CL_A), Some(at)), Path::new(Some(0), Some(CL_A), Some(at)), Path::new(Some(1), Some(CL_A), Some(at))], timed: t });
+        }
+    }
+    for at in [A_RA, W_VA, WO_M, A_RV] {
+        ops.push(Operation::Read { paths: vec![Path::new(Some(1), Some(CL_A), Some(at)); 3], fabric_filtered: true });
+        ops.push(Operation::Read { paths: vec![Path::new(Some(1), Some(CL_A), None), Path::new(Some(1), Some(CL_A), Some(at))], fabric_filtered: true });
+        ops.push(Operation::Read { paths: vec![Path::new(None, None, Some(0xFFFD)), Path::new(Some(2), Some(CL_B), Some(0xFFFD)), Path::new(Some(1), Some(CL_A), Some(at))], fabric_filtered: true });
+    }
     // two writes / two invocations in one request
     for t in [Timed::No, Timed::Yes] {
         ops.push(Operation::Write { paths: vec![Path::new(Some(1), Some(CL_A), Some(W_VO)), Path::new(Some(1), Some(CL_A), Some(W_VA))], timed: t });
